@@ -1005,6 +1005,26 @@ def literal_value(node: ast.AST) -> bool:
         raise ValueError(f"Cannot find a deterministic value: {error!r}") from error
 
 
+def _check_affordable_power(base, exponent) -> None:
+    """Raise ValueError if base ** exponent is an integer of more than a million bits."""
+    if (
+        isinstance(base, int)
+        and isinstance(exponent, int)
+        and not isinstance(base, bool)
+        and base not in (0, 1, -1)
+        and base.bit_length() * abs(exponent) > 1_000_000
+    ):
+        raise ValueError("Cannot find a value within reasonable time")
+
+
+def _check_affordable_format(template) -> None:
+    """Raise ValueError if a format string asks for a field that is huge, or whose width is an argument."""
+    pattern = r"\d{6}|\*" if isinstance(template, str) else rb"\d{6}|\*"
+    if re.search(pattern, template):
+        # "%0999999999d" % 1
+        raise ValueError("Cannot find a value within reasonable time")
+
+
 def _literal_value(node: ast.AST) -> bool:
     if has_side_effect(node, safe_callable_whitelist=constants.PURE_BUILTIN_FUNCTIONS):
         raise ValueError("Cannot find a deterministic value for a node with a side effect")
@@ -1023,6 +1043,10 @@ def _literal_value(node: ast.AST) -> bool:
         ):
             # 9 ** 9 ** 9 has a value, that nobody is going to wait for
             raise ValueError("Cannot find a value within reasonable time")
+        if isinstance(node.op, ast.Pow):
+            _check_affordable_power(left, right)
+        if isinstance(node.op, ast.Mod) and isinstance(left, (str, bytes)):
+            _check_affordable_format(left)
         return constants.COMPARISON_OPERATORS[type(node.op)](left, right)
 
     if match_template(node, ast.Compare(left=object, ops={object}, comparators={object})):
@@ -1062,6 +1086,13 @@ def _literal_value(node: ast.AST) -> bool:
     if match_template(node, ast.Call(func=ast.Attribute(value=ast.Constant), keywords=[])):
         node_value = literal_value(node.func.value)
         args = [literal_value(arg) for arg in node.args]
+        if any(isinstance(arg, int) and abs(arg) > 10_000_000 for arg in args):
+            # "a".ljust(10 ** 10), (9).__pow__(9 ** 9) and so on
+            raise ValueError("Cannot find a value within reasonable time")
+        if node.func.attr in {"__pow__", "__rpow__"} and len(args) == 1:
+            _check_affordable_power(node_value, args[0])
+        if isinstance(node_value, (str, bytes)):
+            _check_affordable_format(node_value)
         return getattr(node_value, node.func.attr)(*args)
 
     if isinstance(node, ast.Call):
@@ -1075,6 +1106,8 @@ def _literal_value(node: ast.AST) -> bool:
                 raise ValueError("Cannot find a value within reasonable time")
             if isinstance(args[0] if args else None, range) and len(args[0]) > 10_000_000:
                 raise ValueError("Cannot find a value within reasonable time")
+            if node.func.id == "pow" and len(args) == 2:
+                _check_affordable_power(*args)
             return getattr(builtins, node.func.id)(*args)
 
     return ast.literal_eval(node)
